@@ -5,7 +5,7 @@ import sympy as sp
 
 from ..report import RuleDef
 from ..src import AnalysisError
-from ..vg import (ANG, App, Const, DictV, Evaluator, Ite, Obj, Tup, is_num,
+from ..vg import (ANG, Unknown, App, Const, DictV, Evaluator, Ite, Obj, Tup, is_num,
                   num_equal, same, show, sym, unq)
 from .c01 import _find_apps
 from .common import evaluator, method_or_fail
@@ -168,6 +168,58 @@ def _merge_term(ctx, star):
     return vals[0] if len(vals) == 1 and not out.raises else None
 
 
+def _merge_probe(ctx, star, caller):
+    """value (DictV) of the merge method as_artist delegates to, on a caller dictionary with the constant keys of `caller`
+    (partial evaluation); the stored side stays the opaque layer define_mpl_kwargs(self.visual, artist). None if not
+    reducible."""
+    m = ctx.model
+    rv = m.cls('RegionVisual')
+    g = m.method(rv, star.args[0].name[5:])
+    dm = m.method(rv, 'define_mpl_kwargs')
+    ev = Evaluator(m, hooks={dm.qualname: lambda e, a, k: DictV([App('define_mpl_kwargs', (a[0], a[1]))])})
+    out = ev.run(g, [Obj('RegionVisual', {}, 'self.visual', rv), star.args[1], DictV([dict(caller)])], {})
+    vals = [v for _, v in out.returns]
+    if len(vals) != 1 or out.raises or not isinstance(vals[0], DictV):
+        return None
+    return vals[0]
+
+
+def _probe_caller_wins(ctx, star, art, keymap):
+    """None when, for every probed caller keyword, the caller's value reaches the artist under the keyword's own name or
+    under the name the library's translation gives the stored key of that name, and nothing but caller values is applied
+    after the stored keywords; else a description of the failing probe."""
+    universe = sorted(set(MPL_KW[art]) | set(keymap))
+    probes = [{k: sym('CALLER_' + k)} for k in universe]
+    probes += [{k: sym('CALLER_' + k), v: sym('CALLER_' + v)} for k, v in sorted(keymap.items()) if k != v]
+    for caller in probes:
+        r = _merge_probe(ctx, star, caller)
+        if r is None:
+            return f'the merge is not reducible for the caller keywords {sorted(caller)}'
+        seen_stored = False
+        for l in r.layers:
+            if isinstance(l, dict):
+                if seen_stored and any(not any(same(x, c) for c in caller.values()) for x in l.values()):
+                    return f'for the caller keywords {sorted(caller)} a value that is not the caller\'s is applied after the stored keywords'
+            elif not isinstance(l, dict):
+                if seen_stored:
+                    return f'for the caller keywords {sorted(caller)} a second opaque layer follows the stored keywords'
+                seen_stored = isinstance(l, App) and l.name == 'define_mpl_kwargs'
+        if not seen_stored:
+            return f'for the caller keywords {sorted(caller)} the stored keywords do not reach the artist'
+        for k, val in caller.items():
+            slots = [k] + ([keymap[k]] if k in keymap else [])
+            got = [r.get(s_) for s_ in slots]
+            if len(caller) == 1:
+                if not any(g_ is not None and same(g_, val) for g_ in got):
+                    return f'the caller\'s {k}= does not reach the artist under {slots}'
+            else:
+                # both names of one slot given: one of the caller's values holds the slot
+                tgt = r.get(slots[-1])
+                if tgt is None or not any(same(tgt, c) for c in caller.values()):
+                    return f'with the caller keywords {sorted(caller)} the slot {slots[-1]} holds none of the caller\'s values'
+    return None
+
+
 def _caller_last(t):
     """is t `dict.updated(<stored keywords>, <caller keywords>)` — the caller's keywords applied last, both sides possibly
     passed through matplotlib's own alias normalisation?"""
@@ -190,13 +242,23 @@ def r2(ctx):
             raise AnalysisError('C18.R2', construct, f'no artist constructed: {show(t, 200)}')
         pos, kw, star = _args(arts[0])
         mt = _merge_term(ctx, star)
+        if mt is None and isinstance(star, App) and star.name == 'apply' and isinstance(star.args[0], App) \
+                and star.args[0].name.startswith('attr:') and len(star.args) >= 3 and isinstance(star.args[1], Const) \
+                and ctx.model.method(ctx.model.cls('RegionVisual'), star.args[0].name[5:]) is not None:
+            mt = Unknown('merge method not reducible on an opaque caller dictionary')
         if mt is not None:
-            if _caller_last(mt):
+            why_not = None
+            if not _caller_last(mt):
+                # the merge may rename or loop over the caller's keywords: decide on probe dictionaries
+                rv_ = ctx.model.cls('RegionVisual')
+                km_ = _keymaps(ctx, method_or_fail(ctx, rv_, '_to_mpl_kwargs'))[star.args[1].v]
+                why_not = _probe_caller_wins(ctx, star, star.args[1].v, km_)
+            if why_not is None:
                 ctx.ok(construct, 'artist(**merge(visual defaults, caller kwargs)) with the caller\'s keywords applied last')
             else:
                 ctx.bad(construct, 'kwargs-order', 'the keyword arguments reaching the artist are merged by '
                         f'{star.args[0].name[5:]}, whose value is not the stored keywords updated with the caller\'s last: '
-                        + show(mt, 240), f.loc())
+                        + why_not + '; ' + show(mt, 240), f.loc())
             continue
         ok = isinstance(star, DictV) and star.layers
         why = ''
@@ -345,6 +407,23 @@ def _keymaps(ctx, f):
     return out
 
 
+def _renamed_alike(ctx, star, clash, shadow):
+    """for every stored key k the translation hands to matplotlib as v != k: the merge, on the caller dictionary {k: V},
+    puts V under v (over the stored value) and — when k and v are two names of one matplotlib property — does not hand
+    k to the artist as well."""
+    for k, v in list(clash) + list(shadow):
+        val = sym('CALLER_' + k)
+        r = _merge_probe(ctx, star, {k: val})
+        if r is None:
+            return False
+        got = r.get(v)
+        if got is None or not same(got, val):
+            return False
+        if (k, v) in clash and any(isinstance(l, dict) and k in l for l in r.layers):
+            return False
+    return True
+
+
 def r2b(ctx):
     """a caller keyword must win over the stored visual attribute *of the same name*: if the translation renames the
     stored key, the caller's keyword has to be renamed alike (else both reach matplotlib under two names)."""
@@ -376,16 +455,21 @@ def r2b(ctx):
         if arts_:
             star_ = _args(arts_[0])[2]
             mt_ = _merge_term(ctx, star_)
+            if mt_ is None and isinstance(star_, App) and star_.name == 'apply' and isinstance(star_.args[0], App) \
+                    and star_.args[0].name.startswith('attr:') and len(star_.args) >= 3 and isinstance(star_.args[1], Const) \
+                    and m.method(rv, star_.args[0].name[5:]) is not None:
+                mt_ = Unknown('merge method not reducible on an opaque caller dictionary')
             if mt_ is not None and isinstance(star_.args[1], Const):
-                merges.setdefault(star_.args[1].v, []).append((ci.name, mt_))
+                merges.setdefault(star_.args[1].v, []).append((ci.name, mt_, star_))
     for art in ('Text', 'Line2D', 'Patch'):
         renamed = {(k, v) for k, v in keymaps[art].items() if k != v}
         clash = sorted(renamed & MPL_SAME_PROPERTY.get(art, set()))
         shadow = sorted(renamed & MPL_OTHER_PROPERTY.get(art, set()))
         if merges.get(art):
             okm = True
-            for cname_, mt_ in merges[art]:
-                txt_ = show(mt_, 20000)
+            for cname_, mt_, star_ in merges[art]:
+                if _renamed_alike(ctx, star_, clash, shadow):
+                    continue        # the caller's keyword is renamed like the stored key (decided on probe dictionaries)
                 both_normalised = _caller_last(mt_) and 'normalize_kwargs(caller_kwargs' in show(mt_.args[1], 2000) \
                     and 'normalize_kwargs(dict["**define_mpl_kwargs(self.visual' in show(mt_.args[0], 20000)
                 carried = all(any(isinstance(x, App) and x.name == 'setitem' and len(x.args) == 3 and isinstance(x.args[1], Const)
